@@ -49,6 +49,31 @@ def gen(rng, tier):
             case['tmax'] = -1
             case['mal'] = 'tmax'
         yield case
+    for case in gen_extra(rng, tier):
+        yield case
+
+
+def _girth3(rng):
+    # primitive chain without self transitions and without 2-cycles: ring 0>1>..>k-1>0 plus a chord j>0
+    import math
+    k = rng.randint(4, 6)
+    js = [j for j in range(2, k - 1) if math.gcd(j + 1, k) == 1]
+    j = rng.choice(js) if js else 2
+    labs, akind = G.alphabet(rng, k=k)
+    rng.shuffle(labs)
+    t = [rng.randrange(k)]
+    for _ in range(rng.randint(40, 160)):
+        c = t[-1]
+        t.append(0 if c == j and rng.random() < 0.5 else (c + 1) % k)
+    return [labs[c] for c in t], akind
+
+
+def gen_extra(rng, tier):
+    for _ in range(6 if tier == 'quick' else 80):
+        t, akind = _girth3(rng)
+        lag = 1
+        yield {'trajs': [t], 'lags': [lag] + rng.sample([2, 3], rng.randint(0, 1)), 'tmax': rng.randint(3, 9), 'lumped': False,
+               'alpha': akind, 'mal': None, 'style': 'girth3'}
 
 
 def corpus():
@@ -69,7 +94,21 @@ def impl(case):
                        'ck': {str(int(s)): [float(v).hex() for v in c] for s, c in d['ck'].items()},
                        'erg': [bool(b) for b in np.atleast_1d(d['is_ergodic'])],
                        'fuzzy': [bool(b) for b in np.atleast_1d(d['is_fuzzy_ergodic'])]}
-    return {'ok': out, 'alias_keys': sorted(map(str, r2.keys())) == sorted(map(str, r.keys()))}
+    # the caller owns the returned arrays: rescaling / overwriting them must not leak into a later call
+    def snap(res):
+        return {str(k): (np.array(d['time'], dtype=float).tolist(), {str(s): np.array(c, dtype=float).tolist() for s, c in d['ck'].items()})
+                for k, d in res.items()}
+    before = snap(r2)
+    for d in r.values():
+        try:
+            d['time'] *= 7
+            for c in d['ck'].values():
+                c[...] = -1.0
+        except Exception:  # noqa
+            pass
+    r3 = mh.msm.ck_test(data, case['lags'], case['tmax'])
+    return {'ok': out, 'alias_keys': sorted(map(str, r2.keys())) == sorted(map(str, r.keys())),
+            'fresh': snap(r3) == before and snap(r2) == before}
 
 
 def requests(case):
@@ -89,6 +128,8 @@ def judge(case, ibc, answers):
             if r.get('err') != 'TypeError':
                 P('impl-vs-spec', 'malformed %s not rejected with TypeError: %s' % (case['mal'], C.short(r, 80)))
             continue
+        if r.get('fresh') is False:
+            P('impl-vs-spec', 'editing the arrays of one result in place changed another / a later result of the same call')
         if 'err' in r:
             # a lumped micro model that is not ergodic at some lag is refused (TypeError): compare with the model below
             res = None
